@@ -40,7 +40,11 @@ Inductive sev : Type :=
 (* log records: level and the argument values that are formatted *)
 Record logrec := mklog { log_level_of : nat; log_site : nat; log_args : list bytes }.
 
-Record config := mkconfig { batch_size : nat; fault_pct : N; log_level : nat }.
+(* send_fails: the environment's answer to socket.send_to(resp, addr) — true when the call returns
+   an error for that destination (e.g. EINVAL for port 0, EACCES, ENETUNREACH, a full send buffer) *)
+Record config := mkconfig { batch_size : nat; fault_pct : N; log_level : nat; send_fails : addr -> bool }.
+
+Definition sends_ok (cfg : config) : Prop := forall a, send_fails cfg a = false.
 
 Section Server.
   Variable H : bytes -> bytes.
@@ -141,19 +145,23 @@ Section Server.
         obind (unwrap site_unwrap_enc
                  (match v with Google => encode resp_msg | RfcDraft13 => encode_framed resp_msg end))
               (fun resp_bytes =>
+        (* match socket.send_to(..) { Ok(n) => bytes_sent = n, Err(_) => successful_send = false } *)
+        let failed := send_fails cfg src in
+        let bytes_sent := if failed then 0 else lenN resp_bytes in
         (* debug!(... HEX.encode(&nonce[0..4]) ...): arguments are evaluated only when enabled *)
         obind (if (lvl_debug <=? log_level cfg)%nat
                then obind (slice site_log_nonce nonce 0 4) (fun n4 =>
-                    Ok [mklog lvl_debug 1 [ver_wire v; u64le (lenN resp_bytes); u64le src;
+                    Ok [mklog lvl_debug 1 [ver_wire v; u64le bytes_sent; u64le src;
                                            hex_encode n4; u64le (N.of_nat (S idx))]])
                else Ok []) (fun logs =>
-        let st := match v with
-                  | Google => SClassicResponse src (lenN resp_bytes)
-                  | RfcDraft13 => SRfcResponse src (lenN resp_bytes)
-                  end in
+        let st := if failed then SFailedSend src
+                  else match v with
+                       | Google => SClassicResponse src bytes_sent
+                       | RfcDraft13 => SRfcResponse src bytes_sent
+                       end in
         obind (respond_each cfg v srep cert_bytes t rest (S idx) coins'') (fun bo =>
-        Ok (mkbo (mkem src resp_bytes :: bo_sent bo) (st :: bo_stats bo) (logs ++ bo_logs bo)
-                 (bo_coins bo))))))))
+        Ok (mkbo ((if failed then [] else [mkem src resp_bytes]) ++ bo_sent bo) (st :: bo_stats bo)
+                 (logs ++ bo_logs bo) (bo_coins bo))))))))
     end.
 
   (* Responder::send_responses: nothing if no requests queued *)
